@@ -29,6 +29,10 @@ type SolveOpts struct {
 	RaceTimeout time.Duration
 	Models      bool // fetch models for failed obligations
 	KeepScripts string
+	CandTimeoutMs int
+	// ExpectFail: obligations known not to discharge (canaries, baseline
+	// failures): solved once with a short timeout, no second chance.
+	ExpectFail func(name string) bool
 }
 
 // SSAHash is a hash of the function's SSA text (instruction stream).
@@ -149,7 +153,13 @@ func VerifyFunc(p *Prog, fn *ssa.Function, opt Options, so *SolveOpts) *FuncResu
 		if len(cands) == 0 {
 			break
 		}
-		solveIncremental(e.lines, cands, so)
+		cso := *so
+		if so.CandTimeoutMs > 0 {
+			cso.TimeoutMs = so.CandTimeoutMs
+		} else {
+			cso.TimeoutMs = 1000
+		}
+		solveIncremental(e.lines, cands, &cso)
 		dropped := false
 		for _, o := range cands {
 			if o.Status != "discharged" && !disabled[o.Cand] {
@@ -166,15 +176,25 @@ func VerifyFunc(p *Prog, fn *ssa.Function, opt Options, so *SolveOpts) *FuncResu
 	}
 	sort.Strings(res.Dropped)
 	res.Kept = e.Cands
-	var rest []*Obligation
+	var rest, normal, expectFail []*Obligation
 	for _, o := range e.Obls {
 		if o.Cand == "" {
 			rest = append(rest, o)
+			if so.ExpectFail != nil && so.ExpectFail(o.Name) {
+				expectFail = append(expectFail, o)
+			} else {
+				normal = append(normal, o)
+			}
 		}
 	}
-	solveIncremental(e.lines, rest, so)
+	solveIncremental(e.lines, normal, so)
+	if len(expectFail) > 0 {
+		fso := *so
+		fso.TimeoutMs = 800
+		solveIncremental(e.lines, expectFail, &fso)
+	}
 	// second chance for non-discharged obligations: race all solvers standalone
-	for _, o := range rest {
+	for _, o := range normal {
 		if o.Status == "discharged" {
 			continue
 		}
